@@ -106,17 +106,21 @@ class Module:
 
     def _check_no_table_mutation(self):
         tables = set(self.consts)
+
+        def root(e):
+            while isinstance(e, ast.Subscript):
+                e = e.value
+            return e.id if isinstance(e, ast.Name) else None
         for node in ast.walk(self.tree):
-            if isinstance(node, ast.Subscript) and isinstance(node.ctx, ast.Store | ast.Del) \
-                    and isinstance(node.value, ast.Name) and node.value.id in tables:
-                raise Unsupported(f'{self.rel}:{node.lineno}: module table {node.value.id} is modified in place')
+            if isinstance(node, ast.Subscript) and isinstance(node.ctx, ast.Store | ast.Del) and root(node) in tables:
+                raise Unsupported(f'{self.rel}:{node.lineno}: module table {root(node)} is modified in place')
             if isinstance(node, ast.Call) and isinstance(node.func, ast.Attribute) and node.func.attr in MUTATORS \
-                    and isinstance(node.func.value, ast.Name) and node.func.value.id in tables:
-                raise Unsupported(f'{self.rel}:{node.lineno}: module table {node.func.value.id} is modified in place')
+                    and root(node.func.value) in tables:
+                raise Unsupported(f'{self.rel}:{node.lineno}: module table {root(node.func.value)} is modified in place')
             if isinstance(node, ast.Global | ast.Nonlocal):
                 raise Unsupported(f'{self.rel}:{node.lineno}: global/nonlocal statement')
-            if isinstance(node, ast.AugAssign) and isinstance(node.target, ast.Name) and node.target.id in tables:
-                raise Unsupported(f'{self.rel}:{node.lineno}: module table {node.target.id} is modified in place')
+            if isinstance(node, ast.AugAssign) and root(node.target) in tables:
+                raise Unsupported(f'{self.rel}:{node.lineno}: module table {root(node.target)} is modified in place')
 
 
 class Translator:
